@@ -526,7 +526,7 @@ def main():
     extra_cov = {}
     if "special" in cfg and not args.replay:
         try:
-            sp = cfg["special"](dict(pid=pid, tier=tier, seed=seed, bins=bins, verif=VERIF, info=info, hooks_on=hooks_on,
+            sp = cfg["special"](dict(pid=pid, tier=tier, seed=seed, bins=bins, lines=lines, verif=VERIF, info=info, hooks_on=hooks_on,
                                      run_harness=run_harness, run_driver=run_driver, write_replay=write_replay, sh=sh,
                                      cargo_build=cargo_build, known=known))
             extra_cov = sp.get("coverage", {})
